@@ -10,9 +10,9 @@ META = {
                           'calc_step_fn_vals_error', 'calc_step_fn_steps_vals', 'eqsig.design_spectra.c_h_factor',
                           'sd_nzs', 't_eff'],
     'stubs': ['np.searchsorted (fork to the insertion index)', 'np.argmin/argmax (fork, first occurrence wins)'],
-    'bounds': {'quick': 'interp2d: <=3 nodes x <=2 queries x <=2 columns, all symbolic (nodes >=1e-3 apart); '
+    'bounds': {'quick': 'interp2d: <=3 nodes x <=2 queries x <=2 columns (3 nodes with 1 query), all symbolic (nodes >=1e-3 apart); '
                         'interp_left <=4 nodes; rolling average n<=6, every window 1..n, 3 modes; step error n<=6, '
-                        'p in {1,2}; design spectra: symbolic T>=0 (T<=10), Z,N,R in (0,5], site classes C,D,E',
+                        'p in {1,2} (also integer-dtype series n<=3); design spectra: symbolic T>=0 (T<=10), Z,N,R in (0,5], site classes C,D,E',
                'thorough': 'interp2d <=4 nodes; rolling average n<=9; step error n<=8'},
     'outside': ['non-monotone node sets', 'node spacing below 1e-10 (interp2d clips the denominator there)',
                 "the 'dir' option of calc_step_fn_vals_error (not in the statement)"],
@@ -70,8 +70,8 @@ def interp_left(ctx, k, m, with_y=True):
         ctx.claim('scalar_query_same', ctx.eq(sc, out[0], 10.0))
 
 
-def roll_av(ctx, n, steps, mode):
-    v = ctx.arr('v', n, -100.0, 100.0)
+def roll_av(ctx, n, steps, mode, kind='f'):
+    v = ctx.iarr('v', n, -100, 100) if kind == 'i' else ctx.arr('v', n, -100.0, 100.0)
     out = ctx.lib.fns.average.calc_roll_av_vals(v, steps, mode=mode)
     ctx.observe('out', out)
     ctx.claim('length_kept', len(out) == n, len(out))
@@ -114,8 +114,8 @@ def _dev(xs, p):
     return tot
 
 
-def step_error(ctx, n, p):
-    v = ctx.arr('v', n, -100.0, 100.0)
+def step_error(ctx, n, p, kind='f'):
+    v = ctx.iarr('v', n, -100, 100) if kind == 'i' else ctx.arr('v', n, -100.0, 100.0)
     err = ctx.lib.fns.average.calc_step_fn_vals_error(v, pow=p)
     ctx.observe('err', err)
     ctx.claim('length', len(err) == n, len(err))
@@ -204,7 +204,7 @@ SELFTEST_PER_SCENARIO = 3
 
 def obligations(tier, seed):
     q = tier == 'quick'
-    for k, m, c in ([(1, 1, 1), (2, 1, 1), (2, 2, 1), (3, 1, 2), (3, 2, 1)] if q else
+    for k, m, c in ([(1, 1, 1), (2, 1, 1), (2, 2, 1), (3, 1, 2)] if q else
                     [(1, 1, 1), (2, 1, 1), (2, 2, 2), (3, 1, 2), (3, 2, 1), (4, 1, 1), (4, 2, 1)]):
         yield Ob('interp2d', {'k': k, 'm': m, 'c': c}, query_ms=60000, timeout_s=1500)
     for k, m in ([(1, 1), (2, 1), (3, 2), (4, 1)] if q else [(1, 1), (2, 2), (3, 2), (4, 2), (5, 1)]):
@@ -214,9 +214,13 @@ def obligations(tier, seed):
         for steps in range(1, n + 1):
             for mode in ('forward', 'backward', 'centre'):
                 yield Ob('roll_av', {'n': n, 'steps': steps, 'mode': mode})
+                if n == 4:
+                    yield Ob('roll_av', {'n': n, 'steps': steps, 'mode': mode, 'kind': 'i'})
     for n in ((2, 3, 4, 6) if q else (2, 3, 4, 5, 6, 8)):
         for p in (1, 2):
             yield Ob('step_error', {'n': n, 'p': p}, query_ms=60000)
+            if (p == 2 and n <= 3) or (p == 1 and n == 2):
+                yield Ob('step_error', {'n': n, 'p': p, 'kind': 'i'}, query_ms=20000)   # integer-dtype series
     for n in ((3, 5) if q else (3, 5, 8)):
         for ind in range(1, n - 1):
             yield Ob('step_levels', {'n': n, 'ind': ind})
